@@ -372,6 +372,11 @@ def part_ufunc(ctx, shard):
                 # same dimension, different scale, fractional power: the quotient keeps a numeric factor in its unit
                 "fractional-power": ("sqrt(cm)", 1),
                 "fractional-power-1.5": ("cm**1.5", 1),
+                # the TARGET itself is on an offset or logarithmic scale and the partner is a plain number: what is refused must
+                # be refused before anything is written
+                "left-offset": (None, 1),
+                "left-offset-scaled": (None, 1),
+                "left-log": (None, 1),
             }
             for (kname, (runit, _)), form, dtype in itertools.product(right_kinds.items(), ("strided", "transposed"), ("float64", "int64")):
                 shape = (2, 3) if form == "transposed" else (4,)
@@ -388,7 +393,7 @@ def part_ufunc(ctx, shard):
 
                 iop = {"add": operator.iadd, "subtract": operator.isub, "multiply": operator.imul, "true_divide": operator.itruediv, "floor_divide": operator.ifloordiv, "remainder": operator.imod, "power": operator.ipow}.get(name)
                 calls = ["call", "out", "out-int", "out-wrong-shape", "out-left", "out-right"] + (["inplace-op"] if iop else [])
-                lunit0 = {"fractional-power": "sqrt(m)", "fractional-power-1.5": "m**1.5"}.get(kname, "m")
+                lunit0 = {"fractional-power": "sqrt(m)", "fractional-power-1.5": "m**1.5", "left-offset": "degC", "left-log": "dB", "left-offset-scaled": "degF"}.get(kname, "m")
                 for call, lunit in [(c, lunit0) for c in calls] + ([(c, lu) for c in ("call", "inplace-op") for lu in ("km/s/Mpc", "m**2/cm", "J/erg") if c in calls] if kname in ("bare", "dimless", "same") else []):
                     ctx.count("evaluations")
                     a, b = mkq(da, lunit, form), (mk_b() if not (kname == "same" and lunit != "m") else mkq(db, lunit, form))
